@@ -172,7 +172,7 @@ func completesAndReturns(b *ast.BlockStmt) bool {
 
 // extractPostEarly finds the if / else-if chain of postprocessItem that mentions the depth without redirections and collects the condition
 // of every arm that completes the item and returns (an arm reached through `else if` carries the negation of the arms before it).
-func extractPostEarly(s *section) {
+func extractPostEarly(s *section) []string {
 	fd := fn("internal/pkg/postprocessor/item.go", "postprocessItem")
 	var guards []string
 	if fd != nil && fd.Body != nil {
@@ -220,9 +220,10 @@ func extractPostEarly(s *section) {
 	}
 	if len(guards) == 0 {
 		s.Facts = append(s.Facts, fact{Name: "postEarlyGuards", Type: "List PCond", Value: "[]", JSON: nil, Miss: true})
-		return
+		return nil
 	}
 	s.raw("postEarlyGuards", "List PCond", "["+strings.Join(guards, ", ")+"]", guards)
+	return guards
 }
 
 // boolFunc translates a function that only tests and returns booleans: `if c { return true }` / `if c { return false }` … `return e`
